@@ -1,2 +1,240 @@
+import PelModel.Cli
+import PelProofs.CliDir
+/-
+  C08 — List, count and display-all agree on the same PELs in file-name order.
+-/
 namespace Pel.C08
+
+/-- a directory given abstractly: file name and the PEL stored in it -/
+abbrev AFiles := List (Text × APel)
+
+def dirOf (files : AFiles) : Dir := files.map (fun np => { name := np.1, data := np.2.enc })
+
+def displayNames (env : Env) (p : APel) : List Text :=
+  sectionName env.T sidPH :: sectionName env.T sidUH ::
+    numberNames (p.sections.map (fun sec => sectionName env.T sec.body.id)) (p.sections.map (fun sec => sectionName env.T sec.body.id))
+
+/-- "a directory of well-formed PELs with distinct entry ids" -/
+structure GoodDir (env : Env) (files : AFiles) : Prop where
+  wf : ∀ np ∈ files, np.2.WF
+  renders : ∀ np ∈ files, ∃ d, render env np.2 = .ok d
+  names : ∀ np ∈ files, (displayNames env np.2).Nodup
+  distinctFiles : (files.map (·.1)).Nodup
+  distinctEids : (files.map (·.2.ph.eid)).Nodup
+
+def renderD (env : Env) (p : APel) : J := match render env p with
+  | .ok d => d
+  | .error _ => .null
+
+def extOk (ext : Option Text) (name : Text) : Bool := match ext with
+  | some e => if e = [] then true else splitext name == e
+  | none => true
+
+def insertAbs (f : Text × APel) : AFiles → AFiles
+  | [] => [f]
+  | g :: gs => if textLt g.1 f.1 then g :: insertAbs f gs else f :: g :: gs
+def sortAbs : AFiles → AFiles
+  | [] => []
+  | f :: fs => insertAbs f (sortAbs fs)
+
+/-- the files a mode looks at, in presentation order -/
+def presented (o : CliOpts) (rev : Bool) (files : AFiles) : AFiles :=
+  let l := sortAbs (files.filter (fun np => extOk o.ext np.1))
+  if rev then l.reverse else l
+
+/-- the selected PELs, in presentation order -/
+def selectedIn (o : CliOpts) (rev : Bool) (files : AFiles) : AFiles :=
+  (presented o rev files).filter (fun np => considerPEL np.2.uh.sev np.2.uh.af o.cfg)
+
+/-- the reference code of the primary SRC, if the PEL has one -/
+def primaryRefcode (p : APel) : Option Text :=
+  (p.sections.findSome? fun sec => match sec.body with
+    | .src true x => some (stripSp x.ascii)
+    | _ => none)
+
+/-- what a --list entry shows, written from the fields of the PEL -/
+def specSummary (env : Env) (p : APel) : List (Text × J) :=
+  (match primaryRefcode p with
+    | some rc => [(s "SRC", J.str rc)]
+    | none => []) ++
+  [(s "PLID", .str (ox (fmtHex 2 p.ph.plid))),
+   (s "CreatorID", .str ((lookupT env.T.creators [p.ph.creator]).getD (s "Unknown"))),
+   (s "Subsystem", .str ((lookupN env.T.subsystems p.uh.subsys).getD (s "Invalid"))),
+   (s "Commit Time", .str (bcdTime p.ph.commit)),
+   (s "Sev", .str ((lookupN env.T.severities p.uh.sev).getD (s "Invalid"))),
+   (s "CompID", .str (displayCompID env.T p.ph.hdr.comp [p.ph.creator]))]
+
+/-- the model's file list is the abstract one -/
+theorem file_list (o : CliOpts) (rev : Bool) (files : AFiles) :
+    getFileList (dirOf files) o.ext rev = dirOf (presented o rev files) := by
+  have hsort := sortBy_unique Prod.fst insertAbs sortAbs (fun _ => rfl) (fun _ _ _ => rfl) rfl (fun _ _ => rfl)
+  have hext : ∀ np : Text × APel, extP o.ext { name := np.1, data := np.2.enc } = extOk o.ext np.1 := by
+    intro np; cases o.ext <;> rfl
+  unfold dirOf presented
+  rw [getFileList_map _ Prod.fst (fun _ => rfl)]
+  simp only [hext, hsort]
+
+/-- ★ the summary decoder (which stops at the primary SRC) shows exactly the corresponding fields of the PEL -/
+theorem summary_fields (env : Env) (cfg : SelCfg) (p : APel) (hp : p.WF) (hr : ∃ d, render env p = .ok d)
+    (hsel : considerPEL p.uh.sev p.uh.af cfg = true) :
+    parseSummary env cfg p.enc =
+      .summary { eid := ox (fmtHex 2 p.ph.eid), fields := specSummary env p } p.ph.plid (primaryRefcode p) := by
+  exact parseSummary_sel env cfg p hp hr hsel
+
+/-- ★ each --list entry's fields are the corresponding fields of the full decode -/
+theorem summary_matches_full (env : Env) (p : APel) (ph uh : List (Text × J)) (l : List (Text × J)) (d : J)
+    (hr : render env p = .ok d) (hd : d = .obj l) (hne : sectionName env.T sidPH ≠ sectionName env.T sidUH)
+    (hph : objGet? l (sectionName env.T sidPH) = some (.obj ph)) (huh : objGet? l (sectionName env.T sidUH) = some (.obj uh)) :
+    objGet? (specSummary env p) (s "PLID") = objGet? ph (s "Platform Log Id") ∧
+    objGet? (specSummary env p) (s "CreatorID") = objGet? ph (s "Creator Subsystem") ∧
+    objGet? (specSummary env p) (s "Commit Time") = objGet? ph (s "Committed at") ∧
+    objGet? (specSummary env p) (s "CompID") = objGet? ph (s "Created by") ∧
+    objGet? (specSummary env p) (s "Subsystem") = objGet? uh (s "Subsystem") ∧
+    objGet? (specSummary env p) (s "Sev") = objGet? uh (s "Event Severity") := by
+  obtain ⟨tail, hd'⟩ := render_obj env p d hr
+  rw [hd'] at hd
+  cases hd
+  rw [objGet?_cons_eq, Option.some.injEq, renderPH_obj, J.obj.injEq] at hph
+  rw [objGet?_cons_ne _ _ _ _ hne, objGet?_cons_eq, Option.some.injEq, renderUH_obj, J.obj.injEq] at huh
+  subst hph huh
+  obtain ⟨h1, h2, h3, h4, h5, h6⟩ := specFields_get env p (primaryRefcode p)
+  rw [ph_get_plid, ph_get_creator, ph_get_commit, ph_get_createdby, uh_get_subsys, uh_get_sev]
+  exact ⟨h1, h2, h3, h4, h5, h6⟩
+
+/-- ★ --show-pel-count reports the number of selected PELs -/
+theorem count_eq (env : Env) (o : CliOpts) (files : AFiles) (hg : GoodDir env files) :
+    (countMode env o (dirOf files)).stdout =
+      s "{\n    \"Number of PELs found\": " ++ natDec (selectedIn o false files).length ++ s "\n}\n" := by
+  have hsort := sortBy_unique Prod.fst insertAbs sortAbs (fun _ => rfl) (fun _ _ _ => rfl) rfl (fun _ _ => rfl)
+  have hpres : ∀ rev, ∀ np ∈ presented o rev files, np ∈ files := by
+    intro rev np h
+    unfold presented at h
+    simp only [hsort] at h
+    exact ((mem_presentedGen _ _ _ _ _).1 h).1
+  have key : keepSome ((dirOf (presented o false files)).map (countOne env o.cfg)) =
+      (selectedIn o false files).map (fun _ => ()) := by
+    unfold keepSome dirOf selectedIn
+    rw [List.map_map]
+    apply filterMap_sel
+    · intro np hnp hs
+      simp only [Function.comp, countOne_enc env o.cfg np.2 (hg.wf np (hpres _ np hnp)), hs, if_true]
+    · intro np hnp hs
+      simp only [Function.comp, countOne_enc env o.cfg np.2 (hg.wf np (hpres _ np hnp)), hs]
+      rfl
+  unfold countMode
+  simp only [file_list, key, List.length_map]
+
+/-- ★ --list shows exactly the selected PELs, in presentation order, keyed by entry id -/
+theorem list_eq (env : Env) (o : CliOpts) (files : AFiles) (hg : GoodDir env files) (hnohex : o.hex = false) :
+    (listMode env o (dirOf files)).stdout =
+      prettyPrint 29 (dumps (.obj ((selectedIn o o.rev files).map fun np =>
+        (ox (fmtHex 2 np.2.ph.eid), J.obj (specSummary env np.2))))) ++ nl := by
+  have hsort := sortBy_unique Prod.fst insertAbs sortAbs (fun _ => rfl) (fun _ _ _ => rfl) rfl (fun _ _ => rfl)
+  have hpres : ∀ rev, ∀ np ∈ presented o rev files, np ∈ files := by
+    intro rev np h
+    unfold presented at h
+    simp only [hsort] at h
+    exact ((mem_presentedGen _ _ _ _ _).1 h).1
+  have hnd : ((selectedIn o o.rev files).map (fun np => ox (fmtHex 2 np.2.ph.eid))).Nodup := by
+    have h1 : ((selectedIn o o.rev files).map (fun np => np.2.ph.eid)).Nodup := by
+      unfold selectedIn presented
+      simp only [hsort]
+      exact nodup_presentedGen _ _ _ _ _ _ hg.distinctEids
+    have h2 := nodup_map_inj (fun e => ox (fmtHex 2 e)) (ox_fmtHex_inj 2) _ h1
+    rw [List.map_map] at h2
+    exact h2
+  unfold listMode
+  simp only [file_list, hnohex, Bool.false_eq_true, if_false]
+  unfold dirOf
+  rw [List.map_map]
+  rw [filterMap_sel (presented o o.rev files) (fun np => considerPEL np.2.uh.sev np.2.uh.af o.cfg) _ _
+    (fun np => (({ name := np.1, data := np.2.enc } : FileEntry),
+      ({ eid := ox (fmtHex 2 np.2.ph.eid), fields := specSummary env np.2 } : Summary), np.2.ph.plid, primaryRefcode np.2))]
+  · rw [List.map_map, summaryObj_nodup, List.map_map]
+    · rfl
+    · rw [List.map_map]; exact hnd
+  · intro np hnp hs
+    have hf := hpres _ np hnp
+    simp only [Function.comp, summaryOf_enc env o.cfg np.2 (hg.wf np hf) (hg.renders np hf), hs, if_true]
+    rfl
+  · intro np hnp hs
+    have hf := hpres _ np hnp
+    simp only [Function.comp, summaryOf_enc env o.cfg np.2 (hg.wf np hf) (hg.renders np hf), hs]
+    rfl
+
+/-- ★ --all-pels shows exactly the full decodes of the selected PELs, in presentation order -/
+theorem all_eq (env : Env) (o : CliOpts) (files : AFiles) (hg : GoodDir env files) (hnohex : o.hex = false) :
+    (allMode env o (dirOf files)).stdout =
+      listFraming ((selectedIn o o.rev files).map fun np => prettyPrint 34 (dumps (renderD env np.2))) := by
+  have hsort := sortBy_unique Prod.fst insertAbs sortAbs (fun _ => rfl) (fun _ _ _ => rfl) rfl (fun _ _ => rfl)
+  have hpres : ∀ rev, ∀ np ∈ presented o rev files, np ∈ files := by
+    intro rev np h
+    unfold presented at h
+    simp only [hsort] at h
+    exact ((mem_presentedGen _ _ _ _ _).1 h).1
+  unfold allMode
+  simp only [file_list, hnohex, Bool.false_eq_true, if_false]
+  unfold dirOf
+  rw [List.map_map]
+  rw [filterMap_sel (presented o o.rev files) (fun np => considerPEL np.2.uh.sev np.2.uh.af o.cfg) _ _
+    (fun np => (({ name := np.1, data := np.2.enc } : FileEntry), fmtHex 2 np.2.ph.eid, renderD env np.2))]
+  · rw [List.map_map]
+    rfl
+  · intro np hnp hs
+    have hf := hpres _ np hnp
+    obtain ⟨d, hd⟩ := hg.renders np hf
+    have hD : renderD env np.2 = d := by simp only [renderD, hd]
+    simp only [Function.comp, fullOf_enc env o.cfg np.2 (hg.wf np hf) d hd (hg.names np hf), hs, if_true, hD]
+  · intro np hnp hs
+    have hf := hpres _ np hnp
+    obtain ⟨d, hd⟩ := hg.renders np hf
+    simp only [Function.comp, fullOf_enc env o.cfg np.2 (hg.wf np hf) d hd (hg.names np hf), hs]
+    rfl
+
+/-- ★ the three modes agree on the number of PELs (with or without --reverse) -/
+theorem same_number (o : CliOpts) (files : AFiles) :
+    (selectedIn o true files).length = (selectedIn o false files).length ∧
+    (selectedIn o o.rev files).length = (selectedIn o false files).length := by
+  have h : ∀ rev, (selectedIn o rev files).length = (selectedIn o false files).length := by
+    intro rev
+    cases rev
+    · rfl
+    · unfold selectedIn presented
+      simp only [if_true, Bool.false_eq_true, if_false, List.filter_reverse, List.length_reverse]
+  exact ⟨h true, h o.rev⟩
+
+/-- ★ presentation order is ascending file-name order; --reverse presents exactly the reverse sequence -/
+theorem order_ascending (o : CliOpts) (files : AFiles) (hd : (files.map (·.1)).Nodup) :
+    (presented o false files).Pairwise (fun a b => textLt a.1 b.1 = true) := by
+  have hsort := sortBy_unique Prod.fst insertAbs sortAbs (fun _ => rfl) (fun _ _ _ => rfl) rfl (fun _ _ => rfl)
+  unfold presented
+  simp only [Bool.false_eq_true, if_false, hsort]
+  exact sortBy_sorted Prod.fst _ (nodup_filter_names Prod.fst _ files hd)
+theorem reverse_is_reverse (o : CliOpts) (files : AFiles) :
+    selectedIn o true files = (selectedIn o false files).reverse := by
+  unfold selectedIn presented
+  simp only [if_true, Bool.false_eq_true, if_false, List.filter_reverse]
+
+/-- ★ --extension restricts all three modes to the files with that extension, and loses none of them -/
+theorem extension_restricts (o : CliOpts) (rev : Bool) (files : AFiles) (np : Text × APel) :
+    np ∈ presented o rev files ↔ np ∈ files ∧ extOk o.ext np.1 = true := by
+  have hsort := sortBy_unique Prod.fst insertAbs sortAbs (fun _ => rfl) (fun _ _ _ => rfl) rfl (fun _ _ => rfl)
+  unfold presented
+  cases rev <;> simp [hsort, mem_sortBy]
+
+/-- `textLt` is Python's order on `str`: lexicographic by code point (a strict total order) -/
+theorem textLt_total (a b : Text) : textLt a b = true ∨ a = b ∨ textLt b a = true := by
+  exact textLt_tot a b
+theorem textLt_irrefl (a : Text) : textLt a a = false := by
+  exact textLt_irr a
+theorem textLt_trans (a b c : Text) (h1 : textLt a b = true) (h2 : textLt b c = true) : textLt a c = true := by
+  exact textLt_tr a b c h1 h2
+
+/-- `splitext`: the extension starts at the last dot, unless only dots precede it -/
+theorem splitext_simple (stem ext : Text) (hs : ∃ c ∈ stem, c ≠ 46) (he : ∀ c ∈ ext, c ≠ 46) :
+    splitext (stem ++ [46] ++ ext) = 46 :: ext := by
+  exact splitext_simple' stem ext hs he
+theorem splitext_no_dot (name : Text) (h : ∀ c ∈ name, c ≠ 46) : splitext name = [] := by
+  exact splitext_no_dot' name h
+
 end Pel.C08
